@@ -36,6 +36,16 @@ def scenarios():
         "resource_access": ("oauth2", [pw], {"op": "access", "token": "at1", "required": ["a"]}),
         "implicit": ("oauth2", [], {"op": "implicit", "client": "pub", "redirect": "https://pub/cb", "scope": "a", "user": 1}),
     }
+    oa = lambda rt, cl, uri: {"op": "oidc_authorize", "rt": rt, "client": cl, "redirect": uri, "scope": "openid a", "nonce": "n0", "user": 1}
+    sc.update({
+        "oidc_authorize_code": ("oidc", [], oa("code", "c1", "https://c1/cb")),
+        "oidc_redeem_code": ("oidc", [oa("code", "c1", "https://c1/cb")], {"op": "redeem", "auth": A1, "code": "code1", "redirect": "https://c1/cb"}),
+        "oidc_implicit_id_token": ("oidc", [], oa("id_token", "pub", "https://pub/cb")),
+        "oidc_implicit_id_token_token": ("oidc", [], oa("id_token token", "pub", "https://pub/cb")),
+        "oidc_hybrid_code_id_token": ("oidc", [], oa("code id_token", "c1", "https://c1/cb")),
+        "oidc_hybrid_code_token": ("oidc", [], oa("code token", "c1", "https://c1/cb")),
+        "oidc_hybrid_code_id_token_token": ("oidc", [], oa("code id_token token", "c1", "https://c1/cb")),
+    })
     init = dict({"op": "initiate", "client": "ca", "callback": "oob", "callback_valid": False}, **_o1sig("ca", "", "i1"))
     az1 = {"op": "authorize", "token": "tmp1", "user": 1}
     ex = dict({"op": "exchange", "client": "ca", "token": "tmp1", "verifier": "ver3"}, **_o1sig("ca", "tsec2", "e1"))
@@ -51,6 +61,8 @@ def scenarios():
 def world(kind):
     if kind == "oauth2":
         return H.World()
+    if kind == "oidc":
+        return H.World(oidc=True)
     from props import c12
     return c12.World1(["HMAC-SHA1"])
 
